@@ -30,6 +30,7 @@ import (
 	"strings"
 	"sync"
 
+	"github.com/hneemann/iterator"
 	"github.com/hneemann/parser2/funcGen"
 	"github.com/hneemann/parser2/listMap"
 	"github.com/hneemann/parser2/value"
@@ -70,7 +71,7 @@ func xmlAttrEscapeOf(s string) ([]rune, bool) {
 // ---------------------------------------------------------------- value trees
 
 type XT struct {
-	Kind    string   `json:"k"` // int float bool str list map format link file closure
+	Kind    string   `json:"k"` // int float bool str list map format link file closure nil
 	I       int      `json:"i,omitempty"`
 	FBits   uint64   `json:"f,omitempty"`
 	B       bool     `json:"b,omitempty"`
@@ -102,6 +103,18 @@ func xlink(l string, v *XT) *XT { return &XT{Kind: "link", S: l, Items: []*XT{v}
 func buildList(items []value.Value, repr string) value.Value {
 	base := value.NewList(items...)
 	switch repr {
+	case "iter-fail":
+		// a lazy list whose iteration yields the items and then an error instead of the next element
+		return value.NewListFromIterable(func(st funcGen.Stack[value.Value]) iterator.Producer[value.Value] {
+			return func(yield iterator.Consumer[value.Value]) {
+				for _, it := range items {
+					if !yield(it, nil) {
+						return
+					}
+				}
+				yield(nil, errors.New("boom: the next element cannot be produced"))
+			}
+		})
 	case "lazy-map":
 		return mustEval("l.map(e->e)", []string{"l"}, base)
 	case "lazy-accept":
@@ -163,6 +176,8 @@ func (t *XT) Build() value.Value {
 		return value.String(t.S)
 	case "closure":
 		return mustEval(t.S, nil)
+	case "nil":
+		return nil
 	case "list":
 		items := make([]value.Value, len(t.Items))
 		for i, it := range t.Items {
@@ -229,6 +244,8 @@ func (t *XT) Human() any {
 		return fmt.Sprintf("%q", t.S)
 	case "closure":
 		return "closure " + t.S
+	case "nil":
+		return "nil"
 	case "file":
 		return fmt.Sprintf("file(%q,%q,%d bytes)", t.S, t.Mime, len(t.Data))
 	case "link":
@@ -1339,6 +1356,164 @@ func (r *Rng) genHTMLTree(depth, maxList int) *XT {
 	}
 }
 
+// ---------------------------------------------------------------- nil, failing iteration, table-format closure results
+
+func xnil() *XT { return &XT{Kind: "nil"} }
+func xfail(it ...*XT) *XT { return &XT{Kind: "list", Repr: "iter-fail", Items: it} }
+func xclo(src string) *XT { return &XT{Kind: "closure", S: src} }
+
+// small cell items: scalars with markup characters, nil, wrappers, a list (a table inside the cell)
+func (r *Rng) genTabItem(maxList int) *XT {
+	switch r.Pick(10) {
+	case 0:
+		return xnil()
+	case 1:
+		return xfmt(xs(r.xmlStr(2)), r.htmlStr())
+	case 2:
+		f := xfmt(xs(r.xmlStr(2)), xl(r.htmlStr(), xnil()))
+		f.Cell = r.Chance(0.5)
+		return f
+	case 3:
+		return xlink(r.xmlStr(2), r.htmlStr())
+	case 4:
+		return xl(r.htmlStr(), r.genScalarXT())
+	case 5:
+		return xm(r.xmlKey(), r.htmlStr())
+	case 6:
+		return r.genScalarXT()
+	}
+	return r.htmlStr()
+}
+
+// the new shapes of the ToHtml model: tables with table formats whose closures succeed with other values,
+// nil (first / later element, map value, wrapped), lists whose iteration fails around the cut-off
+func (r *Rng) genTabCase(maxList int) *htmlCase {
+	hc := &htmlCase{MaxList: maxList, Inline: r.Chance(0.5)}
+	items := func(n int) []*XT {
+		var l []*XT
+		for i := 0; i < n; i++ {
+			l = append(l, r.genTabItem(maxList))
+		}
+		return l
+	}
+	switch k := r.Pick(10); {
+	case k < 5:
+		// a table with a table format
+		tf := &XT{Kind: "map", Repr: "listmap"}
+		for _, key := range []string{"r1c1", "r2c2", "r1", "r2", "c1", "c2", "all"} {
+			if !r.Chance(0.45) {
+				continue
+			}
+			tf.Keys = append(tf.Keys, key)
+			switch c := r.Pick(10); {
+			case c < 6:
+				tf.Items = append(tf.Items, xclo(resClosures[r.Pick(len(resClosures))]))
+			case c == 6:
+				tf.Items = append(tf.Items, xclo("x->x"))
+			case c == 7:
+				tf.Items = append(tf.Items, xclo(failingClosure))
+			default:
+				tf.Items = append(tf.Items, xs(r.xmlStr(2)))
+			}
+		}
+		st := xm("table", tf)
+		if r.Chance(0.4) {
+			st.Keys = append(st.Keys, cssKeys[r.Pick(len(cssKeys))])
+			st.Items = append(st.Items, xs(r.xmlStr(2)))
+		}
+		tbl := &XT{Kind: "list", Repr: "eager"}
+		nrows := clamp(maxList-1+r.Pick(3), 1, 5)
+		for i := 0; i < nrows; i++ {
+			if i > 0 && r.Chance(0.15) {
+				tbl.Items = append(tbl.Items, r.genTabItem(maxList)) // a row that is not a list (may be a Format or nil)
+				if tbl.Items[i].Kind == "list" {
+					tbl.Items[i] = r.htmlStr()
+				}
+				continue
+			}
+			row := &XT{Kind: "list", Repr: "eager", Items: items(clamp(maxList-1+r.Pick(3), 0, 5))}
+			if r.Chance(0.12) {
+				row.Repr = "iter-fail"
+			}
+			tbl.Items = append(tbl.Items, row)
+		}
+		if r.Chance(0.1) {
+			tbl.Repr = "iter-fail"
+		}
+		var v *XT = tbl
+		if r.Chance(0.25) {
+			v = xlink(r.xmlStr(2), v)
+		}
+		hc.Tree = xfmt(st, v)
+		if r.Chance(0.2) {
+			hc.Tree = xl(xs("head"), hc.Tree) // the Format in a cell of a numbered list: toTD hands the style on
+		}
+	case k < 8:
+		// numbered lists / plainList with nil and a failing iteration around the cut-off
+		n := clamp(maxList-1+r.Pick(3), 0, 5)
+		l := &XT{Kind: "list", Repr: "eager", Items: items(n)}
+		for i := range l.Items {
+			if l.Items[i].Kind == "list" && i == 0 {
+				l.Items[i] = r.htmlStr()
+			}
+		}
+		if r.Chance(0.3) && n > 0 {
+			l.Items[0] = xnil()
+		}
+		if r.Chance(0.6) {
+			l.Repr = "iter-fail"
+			if n <= maxList && (n == 0 || l.Items[0].Kind != "nil") {
+				hc.WantErr = true // the failing position is reached: no later than the first element past the cut-off
+			}
+		}
+		hc.Tree = l
+		if r.Chance(0.25) {
+			hc.Tree = xfmt(xs("plainList"), l)
+			hc.WantErr = l.Repr == "iter-fail"
+		}
+	default:
+		// nil below maps, wrappers, styles
+		switch r.Pick(4) {
+		case 0:
+			hc.Tree = xm(r.xmlKey(), xnil(), "k2", xfmt(xs(r.xmlStr(2)), xnil()))
+		case 1:
+			hc.Tree = xlink(r.xmlStr(2), xnil())
+		case 2:
+			hc.Tree = xfmt(xclo("x->x"), xnil())
+		default:
+			hc.Tree = xl(xl(xnil(), r.htmlStr()), xnil(), xl(xnil()))
+		}
+	}
+	return hc
+}
+
+func c18TabCount(hc *htmlCase, sum *Summary) {
+	hc.Tree.Walk(func(x *XT) {
+		switch {
+		case x.Kind == "nil":
+			sum.Count("tab_shapes", "nil")
+		case x.Kind == "list" && x.Repr == "iter-fail":
+			sum.Count("tab_shapes", fmt.Sprintf("iter-fail at len-max=%d", clamp(len(x.Items)-hc.MaxList, -2, 2)))
+		case x.Kind == "list" && len(x.Items) > 0 && x.Items[0].Kind == "nil":
+			sum.Count("tab_shapes", "list with nil first")
+		case x.Kind == "closure" && isResClosure(x.S):
+			if strings.HasPrefix(x.S, "(") {
+				sum.Count("tab_shapes", "table-format closure result (3 args)")
+			} else {
+				sum.Count("tab_shapes", "table-format closure result (1 arg)")
+			}
+		}
+	})
+	if m := hc.coqModelInput(); m != "None" {
+		sum.Count("tab_shapes", "case inside the model")
+		if strings.Contains(m, "HCell") {
+			sum.Count("tab_shapes", "case with HCell")
+		}
+	} else {
+		sum.Count("tab_shapes", "case outside the model")
+	}
+}
+
 // ---------------------------------------------------------------- Coq input of the ToHtml core model
 
 // Cases inside the modelled core of ToHtml are handed to the Coq model as a term; everything else as None
@@ -1392,10 +1567,13 @@ func (t *XT) coqStyle() (string, bool) {
 							}
 						}
 					}
-					if fv.Kind != "str" && fv.Kind != "map" && !(fv.Kind == "closure" && (fv.S == failingClosure || fv.S == "x->x")) {
+					if fv.Kind != "str" && fv.Kind != "map" && !(fv.Kind == "closure" && (fv.S == failingClosure || fv.S == "x->x" || isResClosure(fv.S))) {
 						return "", false
 					}
 					st, ok := fv.coqStyle()
+					if fv.Kind == "closure" && isResClosure(fv.S) {
+						st, ok = "SCloRes", true
+					}
 					if !ok {
 						return "", false
 					}
@@ -1421,7 +1599,111 @@ func (t *XT) coqStyle() (string, bool) {
 	return "", false
 }
 
-func (t *XT) coqHVal() (string, bool) {
+// table-format closures that succeed with a value other than the item; the model gets the value with the item (HCell)
+var resClosures = []string{"x->[x,\"&\"]", "x->{v:x}", "(r,c,x)->[r,c,x]", "(r,c,x)->{row:r,item:x}"}
+
+func isResClosure(src string) bool {
+	for _, c := range resClosures {
+		if c == src {
+			return true
+		}
+	}
+	return false
+}
+
+// the Coq term of the value the closure returns for the item with the Coq term p at (row, col)
+func resClosureTerm(src, p string, row, col int) string {
+	switch src {
+	case "x->[x,\"&\"]":
+		return "HL [" + p + "; HS " + CoqStr("&") + "]"
+	case "x->{v:x}":
+		return "HM [(" + CoqStr("v") + ", " + p + ")]"
+	case "(r,c,x)->[r,c,x]":
+		return "HL [HS " + CoqStr(strconv.Itoa(row)) + "; HS " + CoqStr(strconv.Itoa(col)) + "; " + p + "]"
+	case "(r,c,x)->{row:r,item:x}":
+		return "HM [(" + CoqStr("row") + ", HS " + CoqStr(strconv.Itoa(row)) + "); (" + CoqStr("item") + ", " + p + ")]"
+	}
+	panic("resClosureTerm " + src)
+}
+
+// the table format map of a style (key table), if any
+func tableFormatOf(style *XT) *XT {
+	if style == nil || style.Kind != "map" {
+		return nil
+	}
+	for i, k := range style.Keys {
+		if k == "table" && style.Items[i].Kind == "map" {
+			return style.Items[i]
+		}
+	}
+	return nil
+}
+
+// tableExporter.format's choice for (row, col): the source of a result closure, or ""
+func tfResClosureAt(tf *XT, row, col int) string {
+	for _, key := range []string{fmt.Sprintf("r%dc%d", row, col), fmt.Sprintf("r%d", row), fmt.Sprintf("c%d", col), "all"} {
+		for i, k := range tf.Keys {
+			if k == key {
+				if f := tf.Items[i]; f.Kind == "closure" && isResClosure(f.S) {
+					return f.S
+				}
+				return ""
+			}
+		}
+	}
+	return ""
+}
+
+func (t *XT) coqHVal() (string, bool) { return t.coqHValTF(nil) }
+
+// tf: the table format of the style toHtml is called with (through Format and Link), if it has one
+func (t *XT) coqHValTF(tf *XT) (string, bool) {
+	switch t.Kind {
+	case "nil":
+		return "HNil", true
+	case "list":
+		if tf == nil || len(t.Items) == 0 || t.Items[0].Kind != "list" {
+			break
+		}
+		// a table with a table format: the items a succeeding closure format applies to carry its result
+		cell := func(it *XT, row, col int) (string, bool) {
+			p, ok := it.coqHVal()
+			if !ok {
+				return "", false
+			}
+			if src := tfResClosureAt(tf, row, col); src != "" {
+				return "HCell (" + resClosureTerm(src, p, row, col) + ") (" + p + ")", true
+			}
+			return p, true
+		}
+		var rows []string
+		for i, row := range t.Items {
+			if row.Kind != "list" {
+				p, ok := cell(row, i+1, 1)
+				if !ok {
+					return "", false
+				}
+				rows = append(rows, p)
+				continue
+			}
+			var cells []string
+			for j, it := range row.Items {
+				p, ok := cell(it, i+1, j+1)
+				if !ok {
+					return "", false
+				}
+				cells = append(cells, p)
+			}
+			if row.Repr == "iter-fail" {
+				cells = append(cells, "HErr")
+			}
+			rows = append(rows, "HL "+CoqList(cells))
+		}
+		if t.Repr == "iter-fail" {
+			rows = append(rows, "HErr")
+		}
+		return "HL " + CoqList(rows), true
+	}
 	switch t.Kind {
 	case "int", "bool", "str":
 		return "HS " + CoqStr(scalarString(t.Build())), true
@@ -1437,6 +1719,9 @@ func (t *XT) coqHVal() (string, bool) {
 			}
 			parts[i] = p
 		}
+		if t.Repr == "iter-fail" {
+			parts = append(parts, "HErr")
+		}
 		return "HL " + CoqList(parts), true
 	case "map":
 		// entries in the order given; the model sorts
@@ -1450,7 +1735,7 @@ func (t *XT) coqHVal() (string, bool) {
 		}
 		return "HM " + CoqList(parts), true
 	case "format":
-		p, ok := t.Items[0].coqHVal()
+		p, ok := t.Items[0].coqHValTF(tableFormatOf(t.Style))
 		if !ok {
 			return "", false
 		}
@@ -1481,7 +1766,7 @@ func (t *XT) coqHVal() (string, bool) {
 		}
 		return fmt.Sprintf("HFmt %s %d (%s) (%s)", CoqBool(t.Cell), t.ColSpan, st, p), true
 	case "link":
-		p, ok := t.Items[0].coqHVal()
+		p, ok := t.Items[0].coqHValTF(tf)
 		if !ok {
 			return "", false
 		}
@@ -1809,6 +2094,50 @@ func cmdC18(seed int64, tier, outDir string) {
 		}
 		id++
 		c18HTMLCase(&htmlCase{Tree: xfmt(st, xlink("u", xl(xl(file, xs("x")), xl(xi(1), xl(xs("in")))))), MaxList: 3, Inline: true}, id, sum, cw)
+	}
+	// additive: nil, failing iteration, table-format closures that succeed with other values (own random stream)
+	tfRes := func(kv ...any) *XT { return xm("table", xm(kv...)) }
+	tabCorpus := []*htmlCase{
+		{Tree: xnil(), MaxList: 3, Inline: true},
+		{Tree: xl(xnil(), xs("<never>"), xfmt(xclo(failingClosure), xl(xs("v")))), MaxList: 3, Inline: true},
+		{Tree: xl(xs("a"), xnil(), xfmt(xs("s\""), xnil())), MaxList: 3, Inline: false},
+		{Tree: xl(xl(xnil(), xs("b")), xnil()), MaxList: 3, Inline: true},
+		{Tree: xfmt(xs("plainList"), xl(xnil(), xs("<"))), MaxList: 1, Inline: true},
+		{Tree: xm("k<", xnil()), MaxList: 2, Inline: true},
+		// the iteration fails: at the last rendered element, at the first element past the cut-off, one later
+		{Tree: xfail(xs("a")), MaxList: 2, Inline: true, WantErr: true},
+		{Tree: xfail(xs("a"), xs("b")), MaxList: 2, Inline: true, WantErr: true},
+		{Tree: xfail(xs("a"), xs("b"), xs("c")), MaxList: 2, Inline: true},
+		{Tree: xfail(), MaxList: 2, Inline: true, WantErr: true},
+		{Tree: xfail(xnil()), MaxList: 2, Inline: true},
+		{Tree: xl(xl(xs("a")), xfail(xs("b"), xs("c"))), MaxList: 2, Inline: true, WantErr: true},
+		{Tree: xl(xl(xs("a")), xfail(xs("b"), xs("c"), xs("d"))), MaxList: 2, Inline: true},
+		{Tree: xl(xl(xs("a")), xl(xs("b")), xfail(xs("c"))), MaxList: 2, Inline: true},
+		{Tree: xfail(xl(xs("a")), xl(xs("b"))), MaxList: 2, Inline: false, WantErr: true},
+		{Tree: xfmt(xs("plainList"), xfail(xs("a"), xs("b"), xs("c"))), MaxList: 1, Inline: true, WantErr: true},
+		{Tree: xm("k", xfail(xs("a"))), MaxList: 2, Inline: true, WantErr: true},
+		// table-format closures whose result is rendered in place of the item
+		{Tree: xfmt(tfRes("all", xclo("x->[x,\"&\"]")), xl(xl(xs("<a>"), xi(2)), xs("lonely"), xl(xnil()))), MaxList: 3, Inline: true},
+		{Tree: xfmt(tfRes("c2", xclo("x->{v:x}"), "r1", xs("row\"1")), xl(xl(xs("a"), xs("b")), xl(xs("c"), xfmt(xs("st"), xs("d<"))))), MaxList: 3, Inline: false},
+		{Tree: xfmt(tfRes("all", xclo("(r,c,x)->[r,c,x]")), xlink("l", xl(xl(xs("a"), xs("b"), xs("c")), xl(xs("d"))))), MaxList: 2, Inline: true},
+		{Tree: xfmt(tfRes("r1c1", xclo("(r,c,x)->{row:r,item:x}"), "all", xclo("x->x")), xl(xl(xl(xs("in"), xs("ner")), xs("b")))), MaxList: 2, Inline: true},
+		{Tree: xfmt(tfRes("all", xclo("x->[x,\"&\"]")), xl(xl(xfmt(xclo(failingClosure), xl(xs("v")))))), MaxList: 2, Inline: true, WantErr: true},
+	}
+	for _, hc := range tabCorpus {
+		id++
+		c18TabCount(hc, sum)
+		c18HTMLCase(hc, id, sum, cw)
+	}
+	ntab := 160
+	if tier == "thorough" {
+		ntab = 6000
+	}
+	rt := NewRng(seed ^ 0x18ab)
+	for i := 0; i < ntab*optBoost; i++ {
+		id++
+		hc := rt.genTabCase(1 + rt.Pick(3))
+		c18TabCount(hc, sum)
+		c18HTMLCase(hc, id, sum, cw)
 	}
 	c18Sweep(tier, &id, sum, cw)
 	cw.Flush()
